@@ -460,11 +460,14 @@ def stalled_reader(report, backend):
         relay.close()
 
 
-def _until_quiet(relay, idle_s=3.0, cap_s=300.0):
+def _until_quiet(relay, idle_s=8.0, cap_s=300.0):
     """Run the loop until nothing is in flight (Relay.quiescent, then the LMDB writer drained, as Relay.settle does).  Unlike
     Relay.settle this is not a time budget for the work: a burst of hundreds of frames may take long on a loaded machine and is
     waited for as long as *something moves* (a frame sent, a message consumed, a queue growing, a connection ending).  It gives
-    up — returns False — only when nothing at all has moved for idle_s although work is outstanding: that is what "wedged" means."""
+    up — returns False — only when nothing at all has moved for idle_s although work is outstanding: that is what "wedged" means.
+    idle_s is longer than the longest time the storage may rightly sit still between two visible steps (SQLite's busy timeout of
+    5 s; opening several pooled connections at once, which in a process that has set up many storages takes seconds, because
+    db.py registers its PRAGMA listener on the Engine *class* once per storage)."""
     from lib.proto import _real_sleep
 
     def moved():
@@ -530,8 +533,9 @@ def stalled_live_flood(report, backend, rng, n_events, n_subs, tag):
         pubs = [connect("4.4.4.%d" % (i + 1)) for i in range(rng.choice([2, 3]))]
         payload["publishers"] = len(pubs)
         shapes = [{"kinds": [1, EPHEMERAL]}, {"authors": [author]}, {"since": T0 + 5999}, {"kinds": [EPHEMERAL, 1, 7], "authors": [author]}]
-        for j in range(n_subs):
+        for j in range(n_subs):          # one after the other: the setup is not the scenario
             w.send(["REQ", "live%d" % j, dict(shapes[j % len(shapes)])], settle=False)
+            _until_quiet(relay)
         q.send(["REQ", "mine", {"kinds": [1, EPHEMERAL]}], settle=False)
         _until_quiet(relay)
         silent = ["live%d" % j for j in range(n_subs) if not eose_for(w, 0, "live%d" % j)] + ([] if eose_for(q, 0, "mine") else ["mine"])
@@ -579,7 +583,7 @@ def stalled_live_flood(report, backend, rng, n_events, n_subs, tag):
                          burst=burst_no, first_event=i, missing=missing[:5])
                     wedged = wedged or bool(missing)
             if not quiet and not wedged:
-                fail("the relay did not come to rest after a burst of %d EVENTs (nothing moved for 3 s with work outstanding)" % len(burst),
+                fail("the relay did not come to rest after a burst of %d EVENTs (nothing moved for 8 s with work outstanding)" % len(burst),
                      burst=burst_no, first_event=i)
                 wedged = True
             i += len(burst)
@@ -597,8 +601,9 @@ def stalled_live_flood(report, backend, rng, n_events, n_subs, tag):
         report.count("live_flood_events_published", i)
         report.count("live_flood_messages_owed_to_the_silent_client", i * n_subs)
         # ---- the silent client goes away ---------------------------------------------------------------
+        patience = 3.0 if wedged else 8.0        # once a failure is recorded the remaining waits only add detail to it
         w.inbox.put_nowait(DISCONNECT)
-        _until_quiet(relay)
+        _until_quiet(relay, patience)
         if not w.done:
             fail("the handler of the client that had stopped reading did not end after its disconnect")
         if w.exc is not None:
@@ -608,7 +613,7 @@ def stalled_live_flood(report, backend, rng, n_events, n_subs, tag):
         n0, n1, nq = len(p.out), len(r.out), len(q.out)
         p.send(["EVENT", ev], settle=False)
         r.send(["REQ", "after", {"kinds": [1], "limit": 1}], settle=False)
-        _until_quiet(relay)
+        _until_quiet(relay, patience)
         ok = [f for f in p.frames(n0) if isinstance(f, list) and len(f) > 2 and f[0] == "OK" and f[1] == ev["id"]]
         if not ok or ok[0][2] is not True:
             fail("after the client that had stopped reading disconnected, a fresh EVENT of another connection was %s"
@@ -621,7 +626,7 @@ def stalled_live_flood(report, backend, rng, n_events, n_subs, tag):
         for c in conns:
             if not c.done:
                 c.inbox.put_nowait(DISCONNECT)
-        _until_quiet(relay)
+        _until_quiet(relay, patience)
         if any(not c.done for c in conns):
             fail("the handler(s) of connection(s) %s did not end on their disconnect" % ", ".join(c.remote_addr for c in conns if not c.done))
         for c in conns:
@@ -807,10 +812,11 @@ def run(report, tier, seed):
     try:
         gate_corr(report, drv, rng, 300 if tier == "quick" else 20000)
         for backend in ("sql", "kv"):
-            ladder_corr(report, drv, backend)
-            stalled_reader(report, backend)
+            # (first: every storage set up in this process makes the next SQL connection slower to open, see _until_quiet)
             for n_events, n_subs in LIVE_FLOODS[tier if tier == "quick" else "thorough"][backend]:
                 stalled_live_flood(report, backend, rng, n_events, n_subs, "%dx%d" % (n_events, n_subs))
+            ladder_corr(report, drv, backend)
+            stalled_reader(report, backend)
             for i in range(2 if tier == "quick" else 25):
                 pipelined_disconnect(report, backend, rng, i)
             for i in range(4 if tier == "quick" else 60):
